@@ -48,6 +48,13 @@ def oracle_wellformed(case, ctx):
             X3, _ = panelpool.separable_panel(case["seed"], n, c, t, k)
             for i in range(n):
                 X3[i] += 10.0 * (cls[i] - (i % k))
+    if case.get("dup") and n >= 4:
+        # exact copies of training series carrying different labels: nearest-neighbour
+        # classifiers meet exact distance ties (resolved at random) on them
+        for a, b in ((0, 1), (2, 3)):
+            if cls[a] != cls[b]:
+                X3[b] = X3[a]
+        ctx.label("conflicting_duplicates")
     y = np.array([labs[j] for j in cls])
     if case["y_as_series"]:
         y_in = pd.Series(y)
@@ -271,7 +278,7 @@ def wf_cases(draw):
     return {
         "spec": {"kind": kind, "random_state": draw(st.integers(0, 100)), "n_columns": draw(st.integers(1, 2))},
         "n_classes": k, "n_train": draw(st.integers(2 * k + 2, 14)), "t": draw(st.integers(16, 30)),
-        "seed": draw(st.integers(0, 10 ** 6)), "separable": draw(st.booleans()), "prefit": draw(st.integers(0, 3)) == 0,
+        "seed": draw(st.integers(0, 10 ** 6)), "separable": draw(st.booleans()), "prefit": draw(st.integers(0, 3)) == 0, "dup": draw(st.integers(0, 2)) == 0,
         "label_kind": draw(st.sampled_from(["int", "int_gap", "str", "float"])),
         "unbalanced": draw(st.booleans()), "y_as_series": draw(st.booleans()),
         "container": draw(st.sampled_from(["nested", "numpy3d"])),
